@@ -9,6 +9,9 @@ trap 'git -C /repo worktree remove --force "$wt" >/dev/null 2>&1; git -C /repo w
 # the worktree starts from HEAD; bring over uncommitted changes of /repo's working tree too
 git -C /repo diff HEAD | git -C "$wt" apply --allow-empty 2>/dev/null
 git -C "$wt" apply "$patch" || { echo "patch does not apply"; exit 3; }
+if [ -n "${MUT_PYTEST:-}" ]; then
+  (cd "$wt" && env -u MITMPROXY_VERIF PYTHONPATH="$wt" /venv/bin/python -m pytest -q -p no:cacheprovider -x -q $MUT_PYTEST 2>&1 | sed 's/\x1b\[[0-9;]*m//g' | grep -E "passed|failed|error" | tail -2 | sed 's/^/repo-tests: /')
+fi
 cd "$(dirname "$0")/.."
 VERIF_REPO="$wt" ./check "$id" --tier "$tier" > "/dev/shm/vmc-mut-$$.log" 2>&1
 rc=$?
